@@ -881,6 +881,15 @@ class C13:
         spec_out = [None] * len(mains)
         for i, e in zip(si, so): spec_out[i] = e
         found, sstats = search(R, crystals, mains, c_out, aux_out, spec_out, valid)
+        # ---- the answers depend on the cell contents, not on where the struct lives: a cell changed in place (lattice scan)
+        inpl_bad = []
+        ics = [c for c in crystals if valid.get(c.id, {}).get('cell') and valid.get(c.id, {}).get('nondeg') and valid.get(c.id, {}).get('atoms')][:60]
+        il = ['inplace %d %s %d %d %d' % (c.id, hx(E_), h_[0], h_[1], h_[2]) for c in ics for E_ in (8.0, 17.44) for h_ in ((1, 1, 1), (2, 2, 0))]
+        if il:
+            for l_, a_ in zip(il, R.run_c(il, crystals)):
+                if not a_.startswith('inpl ') or a_.split()[1:] != ['1', '1', '1']: inpl_bad.append((l_, a_))
+        for l_, a_ in inpl_bad[:10]:
+            found.append(Finding(l_, None, 'after changing the cell of a struct in place, Q_scattering_amplitude / Crystal_F_H_StructureFactor / Bragg_angle differ from the answers for a fresh struct with the same cell (equal flags q, F, theta: %s) — a result that depends on the call history' % a_))
         for c, pa_, pv in stored_bad[:20]:
             found.append(Finding('vol %d E' % c.id, None, 'user-supplied crystal %s: after Crystal_AddCrystal the collection hands out stored volume %r, the recomputed volume is %r (the caller\'s struct carried a stale value)' % (
                 c.name, pa_['vals'][0] if pa_['slot'] != 'N' else None, pv['vals'][0])))
